@@ -47,6 +47,38 @@ CHECKS = {
          "Exploration: HashBidiMap and TreeBidiMap over 4-6 keys x 4-6 values so all collision kinds occur constantly; Get/GetKey for the whole alphabets, inverse consistency on the implementation's own answers, Size=len(Keys)=len(Values), no duplicate/stale value. Holds on the executed histories only.",
          "Trusts the two-map model with the stated Put/Remove rule (class-keyed for TreeBidiMap).",
          "DESIGN.md §4 C10"),
+ "C11": ("online round-trip monitor: ToJSON validity/shape/json.Marshal equality, reload into fresh containers through three loaders, observer equivalence, lockstep drain/continuation",
+         "Exploration: all 21 containers in never-used, cleared and history-reached states (wrapped rings, all comparators, int/string keys, values equal to key text); output of ToJSON is loaded by FromJSON, json.Unmarshal and UnmarshalJSON into fresh containers of the same configuration which must be equivalent in every observer and drain/continue identically. Holds on the executed states only.",
+         "Trusts encoding/json as the judge of validity; elements are ints and valid-UTF-8 strings.",
+         "DESIGN.md §4 C11"),
+ "C12": ("online monitor over (prior state x hostile input) pairs: before/after snapshots on error, harness-side denotation on success, lockstep continuation against a container built through the ordinary API",
+         "Exploration: 21 containers x prior states (empty, small, big, full ring) x ten input families (well-formed, element-level type errors at first/middle/last, literal corpus, truncations, byte mutations, random bytes, deep nesting, trailing garbage, other states' output) through three loaders. Error => all observers equal the snapshot; success => equivalent to a fresh container filled with the decoded denotation, also over 20-60 further identical calls. Holds on the executed pairs only.",
+         "Denotation = what encoding/json decodes into []T / map[K]V; success on undenotable input is recorded, not judged; maps/heaps use total-order comparators here.",
+         "DESIGN.md §4 C12"),
+ "C13": ("online set-algebra monitor: exact members, fresh result, unchanged operands, comparator retention, independence under mutation",
+         "Exploration: pairs of HashSet/LinkedHashSet/TreeSet in ten relations (disjoint, overlapping, nested, equal, same object, empty...) built by histories; each of Intersection/Union/Difference is checked for exact members, result identity, operand purity, TreeSet order (also after further Adds) and independence of all three sets. Holds on the executed pairs only.",
+         "Trusts the model (slices with class equality); TreeSets share one comparator function value.",
+         "DESIGN.md §4 C13"),
+ "C14": ("callback event log vs iterator walk; exists/for-all/first-match oracles; Select/Map against a fresh container of the same kind filled in iteration order",
+         "Exploration: 8 enumerable container kinds in history-reached states, predicate/mapping families over index, key and value incl. constants and many-to-one maps; Each log equals the iterator walk, Any/All/Find equal the logical oracles, Select/Map equal the reference construction, receiver unchanged, result independent and keeping the receiver's comparators. Holds on the executed states and functions only.",
+         "Oracle for derived containers is the library's own container semantics (checked by C01-C10).",
+         "DESIGN.md §4 C14"),
+ "C15": ("online observer-agreement monitor on all 21 containers + cleared-vs-fresh lockstep",
+         "Exploration: after every call of random hostile histories Empty/Size/Values/Keys agree and String() is a pure observer with the right prefix; after Clear at a random point the container runs in lockstep with a freshly constructed one (same configuration) comparing every observer incl. ToJSON, iteration, String and removal results. Holds on the executed histories only.",
+         "Hash containers compared as multisets; nil and empty slices equal.",
+         "DESIGN.md §4 C15"),
+ "C16": ("aliasing monitor: scribble on returned slices, keep snapshots across mutations, scribble on passed slices, GetSortedValues purity",
+         "Exploration: all 21 containers; every slice returned by Values()/Keys() is overwritten and appended to within capacity, earlier snapshots are kept across mutations incl. Sort/Clear/FromJSON, caller-owned slices with spare capacity go to every variadic constructor and inserter and are then overwritten, GetSortedValues(Func) must sort a copy. All judged through the full observer set incl. iteration order. Holds on the executed states only.",
+         "Aliasing is judged through public observers only.",
+         "DESIGN.md §4 C16"),
+ "C17": ("child-process monitors: recover() panic monitor, per-call fstat on fd 1/2, per-case watchdog with replay confirmation; reflection-driven calls of every exported method with type-directed hostile arguments; liveness canaries",
+         "Exploration: every exported method of every container, iterator, node and entry type (564 found by reflection) is called with hostile indices, empty/long variadics, absent keys, hostile JSON, the receiver itself, on empty and populated containers; plus the state-deep workloads of the other properties under the output monitor. A panic, a fatal error, a byte on stdout/stderr or a case that stops making progress (confirmed by replay) is a violation. Holds on the executed calls only.",
+         "Documented use only (valid comparators, pure callbacks, iterator reads after successful moves); non-termination decided by a 30 s per-case watchdog confirmed by replay with 60 s.",
+         "DESIGN.md §4 C17"),
+ "C18": ("Go race detector (-race build) over concurrent read-only catalogues + sequential-answer comparison + state fingerprints; RWMutex histories checked in lock order and with porcupine",
+         "Exploration: 2-32 goroutines run the whole read-only catalogue of each of the 21 containers concurrently with no monitor-side synchronisation between barrier and join; every race report with a library frame, every answer differing from the sequential one and every state change is a violation; reader/writer histories under a caller-side RWMutex are checked exactly (epoch order) and with porcupine. Holds on the executed accesses and histories only.",
+         "Happens-before detector with bounded per-location history; encoding/json inside ToJSON adds ordering edges that cannot be removed.",
+         "DESIGN.md §4 C18"),
 }
 
 def main():
